@@ -14,8 +14,47 @@ from . import core as K
 VERIF = B.VERIF
 
 
+def _evidence_core(path):
+    with open(path) as f:
+        d = json.load(f)
+    c = d['coverage']
+    for k in ('runs_per_hour',):
+        c.pop(k, None)
+    if 'python_half' in c:
+        c['python_half'].pop('wall_s', None)
+    d.pop('wall_s', None)
+    return json.dumps(d, sort_keys=True)
+
+
+def end_to_end(seed):
+    """Whole checks run twice (different worker counts, different PYTHONHASHSEED for the orchestrator
+    itself via a wrapper env) must write identical evidence apart from wall-clock fields."""
+    bad = 0
+    for prop, runs in (('C13', 40000), ('C14', 40000), ('C08', 30000), ('C16', 30000)):
+        outs = []
+        for workers in ('16', '5'):
+            out = tempfile.mkdtemp(prefix='e2e-')
+            env = dict(os.environ)
+            env.update({'VERIF_OUT': out, 'VERIF_WORKERS': workers, 'VERIF_SEED': str(seed)})
+            p = subprocess.run([os.path.join(VERIF, 'bin', 'vcheck'), prop, '--runs', str(runs)], env=env,
+                               stdout=subprocess.PIPE, stderr=subprocess.PIPE, text=True, timeout=3600)
+            if p.returncode != 0:
+                print('end-to-end %s: exit %d\n%s' % (prop, p.returncode, p.stderr[-800:]))
+                bad += 1
+            else:
+                outs.append(_evidence_core(os.path.join(out, 'evidence', prop + '.json')))
+            shutil.rmtree(out, ignore_errors=True)
+        ok = len(outs) == 2 and outs[0] == outs[1]
+        print('end-to-end %s seed %d, 16 vs 5 workers: %s' % (prop, seed, 'identical evidence' if ok else 'MISMATCH'))
+        if not ok:
+            bad += 1
+    return bad
+
+
 def determinism(seed):
     bad = 0
+    for vs in (seed, seed + 1, seed + 1000003):
+        bad += end_to_end(vs)
     for variant in ('plain', 'san'):
         binary = B.build(variant)
         for profile in ('clock-keep', 'clock-sync', 'tz-history', 'tz-restore', 'device'):
